@@ -78,6 +78,14 @@ CLAIMED["C09"] = ("property-based testing (Hypothesis): fault-free generated pro
          "Exploration: faults are injected anywhere (dead branches, unused locals, default arguments, comprehension clauses, field-name expressions, object locals), into existing constructs or wrapped around an existing sub-expression; an independent scope walker decides where self/$/super are illegal; the printer supplies the expected byte span.",
          "Trusts the scope walker in pbt/props/c09.py and the generator's by-construction closedness (cross-checked by the reference interpreter, which raises on unbound names); evaluation-time panics for unbound names are covered by C01/C02 (a panic is always a violation).",
          "DESIGN.md section 5 / C09")
+CLAIMED["C04"] = ("property-based testing (Hypothesis): metamorphic relations on generated programs with std.trace as the observer (dead-code insertion, meaning-preserving rewrites, evaluation counts of single thunks)",
+         "Exploration: a generated program and its transformed version run on the same implementation; adding dead bindings/fields/arguments/branches must change neither outcome nor traces (and the dead part must not run), the four documented rewrites must keep value, error and trace sequence, and traced thunks used k times through different paths must run min(k, 1) times.",
+         "std.trace reports after evaluating its second argument here, so sequences are only compared between two runs of this implementation; {f: e}.f is applied only where e mentions no self/super/$ (as the property states).",
+         "DESIGN.md section 5 / C04")
+CLAIMED["C07"] = ("property-based testing (Hypothesis): algebraic laws (associativity in every bracketing, {} identity) under a full inspection record, agreement of all views of one object, visibility computed from the chain, std.objectRemoveKey contract under further extension",
+         "Exploration: chains of 2-5 generated layers with colliding names, all visibilities, +:, guarded super/self/$, object locals, asserts, computed names, comprehension and stdlib-built objects; every variant of the chain must produce the same record (JSON, objectFields(All), length, in/objectHas(All) per name, every field's value).",
+         "Layer expressions are total by construction (guarded reads), so a failure is itself a violation; the visibility model is the 10-line rule of the specification.",
+         "DESIGN.md section 5 / C07")
 NOT_YET = {}
 
 def main():
